@@ -244,6 +244,13 @@ theorem cmpF_antisymm (a b : F64) : cmpF a b = -cmpF b a := by
 theorem duality_float (a b : F64) : holds .lt (cmpF a b) = holds .gt (cmpF b a) := by
   rw [cmpF_antisymm a b]; exact ((flip (cmpF b a)).2.1).symm
 
+/-- D16 (known finding): across int64 and float64 the order is not transitive, because the integer
+    is converted to double before comparing: 2^53+1 == 2^53 (double) == 2^53 but 2^53+1 > 2^53 -/
+theorem trans_mixed_counterexample :
+    compareNumeric (.int 9007199254740993) (.flt (F64.ofInt 9007199254740992)) = some 0 ∧
+    compareNumeric (.flt (F64.ofInt 9007199254740992)) (.int 9007199254740992) = some 0 ∧
+    compareNumeric (.int 9007199254740993) (.int 9007199254740992) = some 1 := ⟨rfl, rfl, rfl⟩
+
 /-! ### null, cross-type, containers -/
 
 theorem null_rules (c : Ctx) (op : BinOp) (x : Item) (hx : x ≠ .null) :
@@ -263,7 +270,7 @@ def kindOf : Item → Nat
     D15 and excluded here: it is an `ErrInvalid` error in the pinned code) -/
 theorem cross_type_unknown (c : Ctx) (op : BinOp) (a b : Item) (ha : kindOf a ∈ [1, 2, 3]) (hb : kindOf b ∈ [1, 2, 3, 4, 5, 6])
     (hne : kindOf a ≠ kindOf b) : compareItems c op a b = .val .unknown none := by
-  cases a <;> cases b <;> simp_all [kindOf, compareItems, compareBool, isNumber]
+  cases a <;> cases b <;> simp_all [kindOf, compareItems, compareNumberItems, compareBool, isNumber]
 
 theorem containers_unknown (c : Ctx) (op : BinOp) (a b : Item) (ha : kindOf a ∈ [4, 5]) (hb : b ≠ .null) :
     compareItems c op a b = .val .unknown none := by
